@@ -267,3 +267,12 @@ def cases(tier, rng):
         lines.append("tof 0 %s" % d.encode().hex())
         lines.append("tof 1 %s" % d.encode().hex())
     return lines
+
+
+def public_line(line):
+    t = line.split(" ")
+    if t[0] == "codabar" and len(t) == 2:
+        return "encfull " + line
+    if t[0] == "tof" and len(t) == 3:
+        return "encfull " + line
+    return None
